@@ -27,15 +27,18 @@ class _Abstract(ast.NodeTransformer):
 
 
 def abstract(expr):
-    import copy
-    e = _Abstract().visit(copy.deepcopy(expr))
-    return re.sub(r'\s+', ' ', unparse(e))
+    """Canonical text of a guard atom.  Local variables already carry their
+    recorded names (sa/alpha.py) and conditions are in negation normal form
+    (sa/nnf.py), so the text itself is the canonical form."""
+    return re.sub(r'\s+', ' ', unparse(expr))
 
 
 def atoms_at(node, stop):
     out = []
     for e, pol in flatten_guards(guards_at(node, stop=stop)):
         e, pol = positive(e, pol)
+        if isinstance(e, ast.Constant) and bool(e.value) == pol:
+            continue          # ``if True:`` constrains nothing
         out.append((abstract(e), pol))
     return out
 
